@@ -71,6 +71,8 @@ def run(ctx):
     c17._timezone_name(ctx, ctx.model, rule='C01.D7')
     from . import c07
     c07.writer_memo(ctx, 'C01.D7', 'zincdumper')
+    from . import _dump as _d9
+    _d9.single_traversal(ctx, 'C01.D5')
     # the empty display string of a reference is a display string (Ref.__init__, hs_ref action)
     from . import _ref
     _ref.ref_init(ctx, 'C01.D2')
